@@ -47,9 +47,21 @@ COVER = [
 DEFAULT = [dict(quitonerror=1, handler=True)]
 
 
-def judge(data: bytes, cfg: dict):
+class LastDevStream(streams.DevStream):
+    def read(self, n=-1):
+        d = super().read(n)
+        self.last = ("read", n, len(d))
+        return d
+
+    def readline(self, n=-1):
+        d = super().readline(n)
+        self.last = ("readline", n, len(d))
+        return d
+
+
+def judge(data: bytes, cfg: dict, devs=None):
     """Run one stream; return (list of (key, detail), nreads, nitems)."""
-    st = LastStream(data)
+    st = LastDevStream(data, devs) if devs else LastStream(data)
     st.last = None
     r = run_reader(data, cfg, stream=st)
     out = []
@@ -76,8 +88,9 @@ def judge(data: bytes, cfg: dict):
 
 def replay_case(case):
     data = bytes.fromhex(case["stream"])
-    out, _ = judge(data, case["cfg"])
-    return out
+    devs = {int(k): v for k, v in case["devs"].items()} if case.get("devs") else None
+    out, _ = judge(data, case["cfg"], devs)
+    return [(k + "|short_read", d) for k, d in out] if devs else out
 
 
 RINGS = {"full": None, "cover": COVER, "default": DEFAULT}
@@ -89,6 +102,23 @@ def eval_block(block, acc):
         _, ring, b = block
         cfgs = full_configs() if ring == "full" else RINGS[ring]
         it = streams.iter_block(tuple(b) if b[0] == "short" else ("pre", b[1], b[2]))
+    elif kind == "short":
+        # one deviation: the i-th stream call answered short, for every i (token sequences <= 2)
+        first = block[1]
+        for seq in [(first,)] + [(first, t) for t in streams.FRAME_TOKENS + streams.NOISE_TOKENS]:
+            data = streams.seq_bytes(seq)
+            for cfg in COVER[:2]:
+                _, r0 = judge(data, cfg)
+                for i in range(r0.calls):
+                    for sl in (1, 2):
+                        out, r = judge(data, cfg, {i: sl})
+                        acc.evaluations += 1
+                        acc.transitions += len(r.items) + 1
+                        acc.nstates += 1
+                        acc.outcomes[(len(r.items), ("short-read",))] += 1
+                        for key, detail in out:
+                            acc.violation(key + "|short_read", {"stream": data.hex(), "cfg": cfg, "devs": {str(i): sl}}, detail)
+        return
     elif kind == "long":
         cfgs = COVER
         it = (streams.seq_bytes(sq) for sq in streams.long_seqs(streams.LONG_NEIGHBOURS + ["fb562", "fd300"]))
@@ -136,6 +166,7 @@ def run_tier(tier, t0):
         blocks.append(("tokens", "cover", first, k, alphabet))
     blocks = [b for b in blocks if b[0] != "tokens0"]
     blocks.append(("long",))
+    blocks += [("short", f) for f in streams.FRAME_TOKENS]
     acc = engine.sweep(blocks, eval_block)
     engine.finish(
         PROP, tier, acc, t0, replay_case,
@@ -150,6 +181,7 @@ def run_tier(tier, t0):
             "io.BytesIO models the underlying stream; tell()==len(S) means no data left",
             "pynmeagps.NMEA_HDR defines the NMEA preambles",
             "an exception or livelock ends the run and is judged by C08, not here",
+            "extra ring: every single short read (one stream call answered with 1-2 bytes although more data follows) on token sequences of <= 2",
         ],
         vacuity=[
             ("items of all three protocols were delivered", {1, 2, 4} <= {p for (_, ps) in acc.outcomes for p in ps}),
